@@ -60,6 +60,14 @@ def run(ctx) -> list[Inst]:
         node_containers = set()
         for nc in node_calls:
             par = pm.get(id(nc))
+            # `x = Node(...)` ... `C[key] = x`: the later store is the registration
+            if isinstance(par, ast.Assign) and len(par.targets) == 1 and isinstance(par.targets[0], ast.Name):
+                nm_ = par.targets[0].id
+                for st_ in own_nodes(f.node):
+                    if isinstance(st_, ast.Assign) and isinstance(st_.targets[0], ast.Subscript) \
+                            and isinstance(st_.value, ast.Name) and st_.value.id == nm_:
+                        par = st_
+                        break
             construct = '(a) one Node per element under a unique key'
             if isinstance(par, ast.Assign) and isinstance(par.targets[0], ast.Subscript) \
                     and isinstance(par.targets[0].value, ast.Name):
@@ -156,6 +164,31 @@ def run(ctx) -> list[Inst]:
             else:
                 insts.append(Inst(RULE, fname, construct, 'unproven', msg='container not recognised', file=rel,
                                   line=rc.lineno, props=PROPS))
+        # (b') an edge is not made conditional on the node dictionary while that dictionary is still being filled
+        for rc in rel_calls:
+            rnode = cfg.owner(rc)
+            for g in cfg.nodes:
+                if g.kind != 'if' or rnode is None or not cfg.dominates(g, rnode) or g is rnode:
+                    continue
+                for c_ in ast.walk(g.ast.test):
+                    if isinstance(c_, ast.Compare) and len(c_.ops) == 1 and isinstance(c_.ops[0], (ast.In, ast.NotIn)) \
+                            and isinstance(c_.comparators[0], ast.Name) and c_.comparators[0].id in node_containers:
+                        cont = c_.comparators[0].id
+                        later = [x for x in cfg.nodes if x.kind == 'stmt' and isinstance(x.ast, ast.Assign)
+                                 and isinstance(x.ast.targets[0], ast.Subscript)
+                                 and isinstance(x.ast.targets[0].value, ast.Name)
+                                 and x.ast.targets[0].value.id == cont and x.loop is not None
+                                 and (x.loop is g.loop or x.loop is (g.loop.loop if g.loop else None))
+                                 and x.idx in cfg.reachable_from(g, avoiding={h_.idx for h_ in cfg.nodes if h_.kind == 'for' and h_ is (x.loop)})]
+                        if later:
+                            insts.append(Inst(
+                                RULE, fname, f'(b) relationship {stmt_text(rc, 50)} does not depend on the fill state of {cont}',
+                                'violation',
+                                msg=(f"'{stmt_text(rc, 60)}' is created only 'if {stmt_text(g.ast.test, 40)}' while {cont} is "
+                                     f"still being filled in the same loop ('{stmt_text(later[0].ast, 50)}' comes after it): "
+                                     f"an edge whose other end is registered later relies on being added from that side, "
+                                     f"and an edge from a step to itself is never added at all"),
+                                file=rel, line=rc.lineno, props=PROPS))
         if fname == 'ingest_model':
             construct = '(b) each linked pair yields two relationships with swapped end points and both field labels'
             three = [rc for rc in rel_calls if len(rc.args) == 3]
